@@ -48,3 +48,21 @@ func (tb *TB) lift2(a, b *Term, f func(x, y *Term) *Term) (*Term, bool) {
 	}
 	return nil, false
 }
+
+// elemArray returns the backing array and element offset of a pointer to an
+// array element (as produced by &s[i]).
+func (e *Exec) elemArray(p Ptr) (*Loc, int) {
+	if p.L == nil || p.L.Par == nil {
+		return nil, 0
+	}
+	// the element may have been re-homed; verify
+	if p.L.Idx < len(p.L.Par.Kids) && p.L.Par.Kids[p.L.Idx] == p.L {
+		return p.L.Par, p.L.Idx
+	}
+	for i, k := range p.L.Par.Kids {
+		if k == p.L {
+			return p.L.Par, i
+		}
+	}
+	return nil, 0
+}
